@@ -367,7 +367,7 @@ fn run_child(kind_idx: usize, depth: usize, stack: usize, timeout: Duration) -> 
 
 fn deep_jobs(cfg: &Config, total: &mut Report, thorough: bool) {
 	let depths: &[usize] = if cfg.san {
-		&[1_000, 10_000]
+		&[1_000, 10_000, 100_000]
 	} else if thorough {
 		&[1_000, 10_000, 100_000, 1_000_000, 2_000_000]
 	} else {
@@ -438,7 +438,7 @@ fn deep_jobs(cfg: &Config, total: &mut Report, thorough: bool) {
 						let spread = run["spread"].as_u64().unwrap_or(0);
 						rep.max("stack_spread_bytes_deep", spread);
 						rep.count("characters_pulled", run["pulled"].as_u64().unwrap_or(0));
-						if spread as usize > SPREAD_LIMIT {
+						if spread as usize > SPREAD_LIMIT && std::env::var_os("JSV_SANITIZER").is_none() {
 							rep.violation(
 								"C03:stack-spread-deep",
 								format!("{:?} nested {} levels: stack addresses at the character source spread over {} bytes", kind, depth, spread),
@@ -629,10 +629,13 @@ pub fn run(cfg: &Config) -> i32 {
 		huge_lazy_sources(&mut rep);
 		total.merge(rep);
 	}
-	if !cfg.san {
+	let dev_profile = std::env::var("JSV_SANITIZER").map(|v| v == "debug").unwrap_or(false);
+	if !cfg.san || dev_profile {
+		// in the dev-profile pass the library is compiled without optimizations: recursion that an
+		// optimizer turns into a loop overflows here, as it would in a user's debug build
 		deep_jobs(cfg, &mut total, thorough);
 	} else {
-		total.note("sanitizer pass: deep-nesting children skipped (instrumented frames are larger; stack depth is decided by the native pass)");
+		total.note("sanitizer pass: deep-nesting children skipped (instrumented frames are larger; stack depth is decided by the native and dev-profile passes)");
 	}
 
 	conclude(
